@@ -1305,4 +1305,189 @@ theorem startBody_cinv {p : Prog} {w : W} {pre : List (SName × Stage)}
     simp only [future]
     rw [hc.1]
 
+/-- the futures the chain has when `setUp` is over, by its result -/
+theorem afterSetUp_cinv {p : Prog} {w : W} {pre : List (SName × Stage)} (r : Option Exc)
+    (hr : r.isSome = true ↔ behOk p.setUp.stage.beh = false)
+    (h : ∀ f, NoteOK r f → Run p (updU f w) pre
+      (if behOk p.setUp.stage.beh then
+        (SName.body, p.body.stage) :: (SName.tearDown, p.tearDown.stage) ::
+          cleanupPath (Chain.register p.tearDown.cleanups (Chain.register p.body.cleanups w.u)).stack
+       else cleanupPath w.u.stack)) :
+    CInv p (afterSetUp p r w) := by
+  cases r with
+  | some k =>
+    have hb : behOk p.setUp.stage.beh = false := hr.mp rfl
+    have := h (Chain.noteMain (some k)) (noteOK_main _)
+    simp only [hb, Bool.false_eq_true, if_false] at this
+    simp only [afterSetUp]
+    exact afterRun_cinv this
+  | none =>
+    have hb : behOk p.setUp.stage.beh = true := by
+      cases hb' : behOk p.setUp.stage.beh with
+      | true => rfl
+      | false => have := hr.mpr hb'; cases this
+    have := h (Chain.noteMain none) (noteOK_main _)
+    simp only [hb, if_true] at this
+    simp only [afterSetUp]
+    exact startBody_cinv this
+
+theorem startSetUp_cinv {p : Prog} {w : W} (h : Run p w [] (path p)) (hs : w.u.stack = []) (hn : w.u.nextCleanup = 0) :
+    CInv p (startSetUp p w) := by
+  have hpath := path_eq p w.u hs hn
+  have h0 : Run p w [] ((SName.setUp, p.setUp.stage) ::
+      (if behOk p.setUp.stage.beh then
+        (SName.body, p.body.stage) :: (SName.tearDown, p.tearDown.stage) ::
+          cleanupPath (Chain.register p.tearDown.cleanups
+            (Chain.register p.body.cleanups (Chain.register p.setUp.cleanups w.u))).stack
+       else cleanupPath (Chain.register p.setUp.cleanups w.u).stack)) := by
+    rw [← hpath]; exact h
+  have h' := run_frame (frame_register p.setUp.cleanups) h0
+  have hfr := launch_frame .setUp p.setUp.stage (updU (Chain.register p.setUp.cleanups) w)
+  -- the futures expressed by the chain state after the launch (same stack and counter)
+  have hcongr : ∀ c' : Chain, c'.stack = (Chain.register p.setUp.cleanups w.u).stack →
+      c'.nextCleanup = (Chain.register p.setUp.cleanups w.u).nextCleanup →
+      (if behOk p.setUp.stage.beh then
+        (SName.body, p.body.stage) :: (SName.tearDown, p.tearDown.stage) ::
+          cleanupPath (Chain.register p.tearDown.cleanups (Chain.register p.body.cleanups c')).stack
+       else cleanupPath c'.stack) =
+      (if behOk p.setUp.stage.beh then
+        (SName.body, p.body.stage) :: (SName.tearDown, p.tearDown.stage) ::
+          cleanupPath (Chain.register p.tearDown.cleanups
+            (Chain.register p.body.cleanups (Chain.register p.setUp.cleanups w.u))).stack
+       else cleanupPath (Chain.register p.setUp.cleanups w.u).stack) := by
+    intro c' h1 h2
+    have hb := register_congr p.body.cleanups c' (Chain.register p.setUp.cleanups w.u) h1 h2
+    have ht := register_congr p.tearDown.cleanups _ _ hb.1 hb.2
+    rw [ht.1, h1]
+  simp only [startSetUp]
+  cases hst : statusOf p.setUp.stage.beh with
+  | completed r =>
+    simp only []
+    apply afterSetUp_cinv r
+    · cases hb : p.setUp.stage.beh <;> simp [statusOf, hb] at hst <;> subst hst <;> simp [behOk]
+    · intro f hf
+      have hr := launch_completed h' r hst f hf
+      rw [hcongr _ hfr.2.1 hfr.2.2]
+      simpa using hr
+  | pending =>
+    simp only []
+    have hp := launch_pending h' hst
+    refine Or.inl (susp_of_pend hp _ (frame_pos .setUp) rfl ?_ (fun _ => rfl))
+    simp only [future]
+    exact (hcongr _ (by simp [hfr.2.1]) (by simp [hfr.2.2])).symm
+
+theorem book_note {pre : List (SName × Stage)} {c : Chain} {r : Option Exc} {f : Chain → Chain} (hf : NoteOK r f)
+    (h : Book pre c) : Book pre (f c) :=
+  ⟨by rw [hf.forced]; exact h.forced, by rw [hf.logged]; exact h.logged, by rw [hf.dropped]; exact h.dropped,
+   hf.excs c h.excs, by rw [hf.stages, hf.observers]; exact h.obs⟩
+
+/-- **the pending stage's Deferred fires**: the chain resumes from a suspended state -/
+theorem resume_cinv {p : Prog} {w0 : W} (hs : Susp p w0) (hi : Inv1 p w0) (t l : Nat) (r : Option Exc)
+    (rest : List (DCall (QAct CAct))) (hc : w0.calls = ⟨t, .user l (.stageDone r)⟩ :: rest) (hdue : t ≤ w0.now) :
+    CInv p (resume p r (logEvent (.user l) { w0 with calls := rest })) := by
+  obtain ⟨pre, n, st, hpath, hlen, hseq, hasync, hpos, hsu, hsd, hnever, hbook, hfails, hunrec⟩ := hs.ex
+  have hnow : t = w0.now := by
+    have := hi.ge ⟨t, .user l (.stageDone r)⟩ (by rw [hc]; exact List.mem_cons_self)
+    simp at this; omega
+  -- the fired call is the one the chain waits for
+  rw [hc] at hsd
+  have hsd' : sdOf (⟨t, .user l (.stageDone r)⟩ :: rest) = (t, r) :: sdOf rest := rfl
+  rw [hsd'] at hsd
+  cases hov : overAt (some 0) (pre ++ [(n, st)]) w0.u.stages with
+  | none => rw [hov] at hsd; cases hsd
+  | some over =>
+    rw [hov] at hsd
+    simp only [List.cons.injEq, Prod.mk.injEq] at hsd
+    obtain ⟨⟨hto, hres⟩, hrest⟩ := hsd
+    have hdelay : delayOf st.beh ≠ none := by
+      intro hd; rw [hnever hd] at hov; cases hov
+    have hrok : r.isSome = true ↔ behOk st.beh = false := by
+      rw [hres]
+      cases hb : st.beh <;> simp [hb, isSync, delayOf] at hasync hdelay <;> simp [resOf, behOk]
+    obtain ⟨wp, hwp⟩ : ∃ wp : W, wp = logEvent (.user l) { w0 with calls := rest } := ⟨_, rfl⟩
+    have hwu : wp.u = w0.u := by rw [hwp]; rfl
+    have hwsp : wp.sp = w0.sp := by rw [hwp]; rfl
+    have hwnow : wp.now = w0.now := by rw [hwp]; rfl
+    have hwcalls : wp.calls = rest := by rw [hwp]; rfl
+    rw [← hwp]
+    have hs0 := hi.sorted; rw [hc] at hs0
+    have key : ∀ f, NoteOK r f → Run p (updU f wp) (pre ++ [(n, st)]) (future p w0.u) := by
+      intro f hf
+      refine ⟨hpath, by simp [hf.stages, hwu, hlen], by simp [hf.stages, hwu, hseq],
+        by simp [hf.stages, hwu, hov, hwnow, ← hnow, hto], by simp [hwcalls, hrest],
+        by simpa [hwu] using book_note hf hbook, ?_, by simpa [hwsp] using hunrec, ?_, ?_⟩
+      · simp only [updU_u, hwu]
+        rw [hf.fails]
+        constructor
+        · rintro (h1 | h1 | h1)
+          · obtain ⟨x, hx, hx2⟩ := hfails.mp (Or.inl h1); exact ⟨x, List.mem_append_left _ hx, hx2⟩
+          · obtain ⟨x, hx, hx2⟩ := hfails.mp (Or.inr h1); exact ⟨x, List.mem_append_left _ hx, hx2⟩
+          · exact ⟨(n, st), by simp, hrok.mp h1⟩
+        · rintro ⟨x, hx, hx2⟩
+          rcases List.mem_append.mp hx with hx | hx
+          · rcases hfails.mpr ⟨x, hx, hx2⟩ with h1 | h1
+            · exact Or.inl h1
+            · exact Or.inr (Or.inl h1)
+          · simp only [List.mem_singleton] at hx
+            subst hx
+            exact Or.inr (Or.inr (hrok.mpr hx2))
+      · -- the timeout call is still pending: we are strictly before the timeout and no stop request came earlier
+        intro hp
+        right
+        simp only [updU_sp, hwsp] at hp
+        simp only [updU_now, hwnow]
+        constructor
+        · have htc := hi.tcount
+          rw [hp, hc, List.filter_cons_of_neg (by simp [QAct.isTimeout])] at htc
+          simp only [if_true] at htc
+          obtain ⟨x, hx⟩ := List.exists_mem_of_length_pos (by omega : 0 < (rest.filter (·.act.isTimeout)).length)
+          obtain ⟨hx1, hx2⟩ := List.mem_filter.mp hx
+          have := (hs0.head x hx1).2 rfl hx2
+          have hxt := hi.ttime x (by rw [hc]; exact List.mem_cons_of_mem _ hx1) hx2
+          simp at this; omega
+        · intro s hs'
+          rcases hi.stops s hs' with h1 | h1
+          · have := hi.ge _ h1; simpa using this
+          · omega
+      · intro hp
+        simp only [updU_sp, hwsp] at hp
+        simp only [updU_now, hwnow, allSyncL_snoc, hasync, Bool.and_false, true_and]
+        cases htc : w0.sp.tcall with
+        | pending => exact absurd htc hp
+        | unset => exact absurd htc hi.nounset
+        | called => exact (hi.called htc).1
+        | cancelled =>
+          have := (hi.cancelled htc).1
+          rw [hunrec] at this; cases this
+    -- dispatch on where the chain was waiting
+    simp only [resume, hwu]
+    cases hpos' : w0.u.pos with
+    | idle => rw [hpos'] at hpos; cases hpos
+    | done => rw [hpos'] at hpos; cases hpos
+    | setUp =>
+      simp only []
+      have hst := hsu hpos'
+      apply afterSetUp_cinv r (by rw [← hst]; exact hrok)
+      intro f hf
+      have := key f hf
+      simpa [future, hpos', hwu] using this
+    | body =>
+      simp only [afterBody]
+      apply startTearDown_cinv
+      have := key _ (noteOK_main r)
+      have hcg := register_congr p.tearDown.cleanups (updU (Chain.noteMain r) wp).u w0.u
+        (by simp [noteMain_stack, hwu]) (by cases r <;> simp [Chain.noteMain, Chain.caught, hwu])
+      rw [hcg.1]
+      simpa [future, hpos'] using this
+    | tearDown =>
+      simp only [afterTearDown]
+      apply afterRun_cinv
+      have := key _ (noteOK_main r)
+      simpa [future, hpos', noteMain_stack, hwu] using this
+    | cleanup =>
+      simp only [afterCleanup]
+      apply afterRun_cinv
+      have := key _ (noteOK_cleanup r)
+      simpa [future, hpos', noteCleanup_stack, hwu] using this
+
 end TTV.Props.C14
